@@ -9,6 +9,7 @@ fn main() {
         "c07" => harness::d_codec::c07(&args),
         "c01" => harness::d_sign::c01(&args),
         "fgseeds" => harness::d_keys::fgseeds(&args),
+        "c01-codec" => harness::d_codec::c01_codec(&args),
         "h2psearch" => harness::d_hash::h2psearch(&args),
         "polyhelpers" => harness::d_poly::polyhelpers(&args),
         "replay-events" => harness::d_replay::replay_events(&args),
